@@ -369,6 +369,14 @@ def c_pure(ctx, w):
             for k in sorted(set(d0) | set(d1)):
                 if d0.get(k, "<absent>") != d1.get(k, "<absent>"):
                     kind = "token" if "num" in d0 and d0.get("word") is not None else "constituent"
+                    # Not judged (no later output or computation can observe them, so the property --
+                    # which speaks of what is produced -- is not concerned): the writers' bookkeeping
+                    # fields (node number of a constituent, parent_num, the '#NNN' pseudo-word of a
+                    # constituent) and an absent optional field being filled with its documented default.
+                    if k == "parent_num" or (kind == "constituent" and k in ("num", "word")):
+                        continue
+                    if k in ("edge", "morph", "lemma") and d0.get(k) is None and d1.get(k) == "--":
+                        continue
                     diffs.append([kind, k, d0.get(k, "<absent>"), d1.get(k, "<absent>")])
     if diffs:
         return ("node data and links unchanged", {"changed": sorted(set("%s.%s" % (d[0], d[1]) for d in diffs)),
